@@ -202,7 +202,7 @@ func histJudge(prop string, cfg histCfg, o *histObs) []finding {
 					fmt.Sscanf(name, "code-%02x", &wantCode)
 				}
 				haveCode = true
-				bodyIntact := name == "ok" || name == "ok(horizon)"
+				bodyIntact := name == "ok" || name == "ok(horizon)" || strings.HasPrefix(name, "ok-")
 				wantErrNil = bodyIntact || !opHasRsp(op)
 				if bodyIntact && wantCode != 0 && opHasRsp(op) {
 					wantErrNil = false // the BMC's own error reply has no body
@@ -262,9 +262,13 @@ func histJudge(prop string, cfg histCfg, o *histObs) []finding {
 			}
 			var probs []string
 			for _, p := range rx.Problems {
-				if !strings.Contains(p, "sequence number") {
-					probs = append(probs, p)
+				if strings.Contains(p, "sequence number") {
+					continue
 				}
+				if cfg.Suite.Integ == 0 && (strings.Contains(p, "authenticated flag") || strings.Contains(p, "encrypted flag")) {
+					continue // with integrity None the flags the library sets are not judged (C01)
+				}
+				probs = append(probs, p)
 			}
 			if len(probs) > 0 {
 				add(mode+"/retransmission-malformed/"+prevAnswerClass(o, cfg, k), "%s transmission %d: %s", op.Name, k-r.First+1, strings.Join(probs, "; "))
@@ -403,9 +407,9 @@ func runHist(r *rep.R, prop string) {
 	}
 	if prop == "C10" {
 		// persistence under the library's own default back-off
-		for _, call := range []string{"sessionless-command", "new-session", "retrieve-cipher-suites", "session-command"} {
+		for _, call := range []string{"sessionless-command", "new-session", "retrieve-cipher-suites", "session-command", "session-close"} {
 			for _, pat := range []string{"black-hole", "garbage", "temporary-code"} {
-				if call == "session-command" && pat == "black-hole" {
+				if (call == "session-command" || call == "session-close") && pat == "black-hole" {
 					continue // in-session transport failure is terminal by contract
 				}
 				if call == "new-session" && pat == "temporary-code" {
@@ -457,6 +461,34 @@ func runHist(r *rep.R, prop string) {
 		long = append(long, alphabet[i%len(alphabet)])
 	}
 	histExplore(r, prop, histCfg{Suite: suites[0], InSession: true, Ops: append(long, opClose), Horizon: 2, Alphabet: "retry"}, 1, &idx)
+	// values the BMC chooses: session IDs with the top bit set / a zero byte, its
+	// own sequence numbering far ahead of or about to wrap past the console's;
+	// and a suite without integrity but with confidentiality
+	for _, sidv := range []uint32{0x80000001, 0xFFFFFFFF, 0x00000100, 0x7FFFFFFF} {
+		for _, out := range []uint32{0, 0x1000, 0xFFFFFFF0, 0xFFFFFFFD} {
+			for _, op := range []int{opGetDeviceID, opSensorReading} {
+				cfg := histCfg{Suite: suites[0], InSession: true, Ops: []int{op, op, opClose}, Horizon: 2, Alphabet: "retry", BMCSID: sidv, BMCOutSeq: out}
+				histExplore(r, prop, cfg, 1, &idx)
+			}
+		}
+	}
+	for _, op := range []int{opGetDeviceID, opPowerReading} {
+		histExplore(r, prop, histCfg{Suite: ref.Suite{Auth: 1, Integ: 0, Conf: 1}, InSession: true, Ops: []int{op, op, opClose}, Horizon: 2, Alphabet: "retry"}, 1, &idx)
+	}
+	// very long sessions (counters crossing 2^6, 2^8, 2^10 and, thorough, 2^16):
+	// every datagram in turn, no deviations
+	nLong := 1100
+	if thorough(r) {
+		nLong = 66000
+	}
+	if prop == "C09" {
+		vlong := make([]int, 0, nLong+1)
+		for i := 0; i < nLong; i++ {
+			vlong = append(vlong, []int{opGetDeviceID, opChassisControl, opPowerReading, opSensorReading}[i%4])
+		}
+		histExplore(r, prop, histCfg{Suite: suites[0], InSession: true, Ops: append(vlong, opClose), Horizon: 1, Alphabet: "retry"}, 0, &idx)
+		r.Bound("longest_session_commands", nLong)
+	}
 	r.Assume("after an operation whose context expired the caller continues with a fresh context")
 	r.Assume("C10 reference model (DESIGN A.2): retry on temporary codes and undecodable replies; first valid reply with another code is final; session-less lost replies are retried; in-session transport failure is terminal")
 }
@@ -471,7 +503,7 @@ func containsOp(h []int, op int) bool {
 }
 
 func histExplore(r *rep.R, prop string, cfg histCfg, bound int, idx *int64) {
-	tag := fmt.Sprintf("%s/%v/%v/%v/%s/%d/%s/%v", prop, cfg.Suite, cfg.InSession, cfg.Ops, cfg.Alphabet, cfg.Horizon, cfg.HSAlphabet, cfg.Discover)
+	tag := fmt.Sprintf("%s/%v/%v/%v/%s/%d/%s/%v/%x/%x", prop, cfg.Suite, cfg.InSession, cfg.Ops, cfg.Alphabet, cfg.Horizon, cfg.HSAlphabet, cfg.Discover, cfg.BMCSID, cfg.BMCOutSeq)
 	e := &env.Explorer{R: r, Bound: bound, Scenario: tag, Idx: idx,
 		Run: func(ch *env.Chooser) any { return runHistory(cfg, ch) },
 	}
@@ -522,7 +554,7 @@ func c10Persist(c c10PersistCase) (string, string) {
 	w.T.Timeout = time.Second
 	w.T.MaxAttempts = 20000
 	var sess *bmc.V2Session
-	if c.Call == "session-command" {
+	if c.Call == "session-command" || c.Call == "session-close" {
 		s, err := w.Conn.NewV2Session(w.Ctx, &bmc.V2SessionOpts{SessionOpts: bmc.SessionOpts{Username: "c10", Password: cfg.Password, MaxPrivilegeLevel: ipmi.PrivilegeLevelUser}, CipherSuites: []ipmi.CipherSuite{ipmi.CipherSuite3}})
 		if err != nil {
 			return "C10/persist/harness", err.Error()
@@ -549,6 +581,8 @@ func c10Persist(c c10PersistCase) (string, string) {
 			_, err = bmc.RetrieveSupportedCipherSuites(w.Ctx, w.Conn)
 		case "session-command":
 			_, err = sess.GetDeviceID(w.Ctx)
+		case "session-close":
+			err = sess.Close(w.Ctx)
 		}
 	})
 	what := fmt.Sprintf("%s, every attempt answered with %q, context deadline %d s of virtual time (lost reply = 1 s, back-off sleeps as requested)", c.Call, c.Pattern, c.DeadS)
